@@ -127,6 +127,8 @@ func (s *store) Transaction(options keyvalue.TransactionOptions) (keyvalue.Trans
 func (t *transaction) prepOp() (keyvalue.OpID, error) {
 	op := t.op
 	t.op++ // every call gets its own ID, even after the transaction was aborted
+	// the result's place is fixed by call order, also when a handler makes further calls before this one completes
+	t.results = append(t.results, keyvalue.OpResult{Op: op})
 
 	select {
 	case <-t.ctx.Done():
@@ -145,7 +147,7 @@ func (t *transaction) Get(path string) keyvalue.OpID {
 func (t *transaction) GetHandler(path string, handler keyvalue.OpHandler) keyvalue.OpID {
 	op, err := t.prepOp()
 	if err != nil {
-		t.results = append(t.results, keyvalue.OpResult{Op: op, Err: err})
+		t.results[op] = keyvalue.OpResult{Op: op, Err: err}
 		return op
 	}
 	record, err := t.store.Get(t.ctx, path)
@@ -154,7 +156,7 @@ func (t *transaction) GetHandler(path string, handler keyvalue.OpHandler) keyval
 	if result.Err == nil && err != nil {
 		result.Err = err
 	}
-	t.results = append(t.results, result)
+	t.results[op] = result
 	return op
 }
 
@@ -167,7 +169,7 @@ func (t *transaction) Set(path string, src keyvalue.FileRecord, contents blob.Bl
 func (t *transaction) SetHandler(path string, src keyvalue.FileRecord, contents blob.Blob, handler keyvalue.OpHandler) keyvalue.OpID {
 	op, err := t.prepOp()
 	if err != nil {
-		t.results = append(t.results, keyvalue.OpResult{Op: op, Err: err})
+		t.results[op] = keyvalue.OpResult{Op: op, Err: err}
 		return op
 	}
 	err = t.store.set(path, src, contents)
@@ -176,7 +178,7 @@ func (t *transaction) SetHandler(path string, src keyvalue.FileRecord, contents 
 	if result.Err == nil && err != nil {
 		result.Err = err
 	}
-	t.results = append(t.results, result)
+	t.results[op] = result
 	return op
 }
 
